@@ -85,7 +85,7 @@ def consume(ctx, cases, results, stats):
         for m in r.get("mismatches", []):
             sig = m["sig"]
             if m.get("drift"):
-                ctx.note_drift("%s" % sig["class"], m["detail"])
+                note_drift(ctx, stats, sig["class"], m["detail"])
                 continue
             ctx.violation(sig, dict(case=m.get("case") or case, detail=m["detail"], statement=STATEMENT))
         for line in r.get("trace", []):
@@ -126,9 +126,9 @@ def validate_trace(ctx, trace, tag):
                 raise common.Infra("malformed trace line (document outside the premise or inconsistent input "
                                    "identity): %s" % json.dumps(line)[:600])
             if v.get("drift"):
-                ctx.note_drift("name_form", dict(inp=line["inp"], structs=line["structs"][:2]))
+                note_drift(ctx, None, "name_form", dict(inp=line["inp"], structs=line["structs"][:2]))
             if v.get("dupnames"):
-                ctx.note_drift("duplicate_names", dict(inp=line["inp"], names=[x["name"] for x in line["structs"]]))
+                note_drift(ctx, None, "duplicate_names", dict(inp=line["inp"], names=[x["name"] for x in line["structs"]]))
             if v["verdict"] == "ok":
                 ctx.traces += 1
                 continue
@@ -141,6 +141,14 @@ def validate_trace(ctx, trace, tag):
                                    note="CodegenTrace rejects this recorded run: " + v["verdict"]))
         if rejected == 0:
             raise common.Infra("CodegenTrace: Accepted failed but Diagnose found every line ok")
+
+
+def note_drift(ctx, stats, what, sample):
+    """At most two samples per class of drift in the evidence; the totals go to coverage.drift_counts."""
+    counts = ctx.extra.setdefault("drift_counts", {})
+    counts[what] = counts.get(what, 0) + 1
+    if counts[what] <= 2:
+        ctx.note_drift(what, sample)
 
 
 def new_stats():
